@@ -39,6 +39,10 @@ EAM_TARGETS = ["setfl", "lammps_eam_alloy", "setfl_fs", "DL_POLY_EAM", "DL_POLY_
 def gen_cases(rng, tier):
   steps = [Decimal(i) / 1000 for i in range(1, 501)] + [Decimal(i) / 10000 for i in range(1, 51)]
   cases = [{"kind": "lattice", "step": str(s)} for s in steps]
+  # the same grids in other units of length (metres: 2.5e-13; something huge): nothing may depend on the absolute size of a step
+  for mant in ("1", "1.2", "2.5", "3", "7", "9.9"):
+    for e in (-13, -12, -10, -7, 4, 8):
+      cases.append({"kind": "lattice", "step": "%sE%d" % (mant, e), "scaled": True})
   cases.append({"kind": "rejections"})
   cases.append({"kind": "defaults"})
   nt = 60 if tier == "quick" else 700
@@ -138,6 +142,8 @@ def tab_of(text):
 
 def run_lattice(case, ctx):
   step = Decimal(case["step"])
+  if case.get("scaled"):
+    ctx.cls("lattice_in_other_length_units")
   nf0 = len(_contracts.failures)
   c0 = _contracts.counts["init_cutoff"]
   for k in KS:
